@@ -73,7 +73,16 @@ func (p *Path) ensureInit(pkg *ssa.Package) {
 	if p.eng.isShared(pkg) {
 		if !p.isInitPath {
 			p.eng.sharedInit(pkg)
+			p.eng.sharedMu.Lock()
+			for _, m := range pkg.Members {
+				if g, ok := m.(*ssa.Global); ok {
+					p.globals[g] = p.eng.sharedGlobals[g]
+				}
+			}
+			p.eng.sharedMu.Unlock()
+			return
 		}
+		// init path (runs with sharedMu held by sharedInit)
 		if p.eng.sharedDone[pkg] {
 			for _, m := range pkg.Members {
 				if g, ok := m.(*ssa.Global); ok {
